@@ -5,6 +5,10 @@ V = os.path.dirname(os.path.dirname(os.path.abspath(__file__)))
 props = [json.loads(l) for l in open(os.path.join(V, "properties.jsonl"))]
 
 CLAIMED = {
+ "C13": dict(
+  technique="enumerated and rapid-sampled schedules: permuted start order of background analyses (verif hook) and permuted release order of parked PublishDiagnostics calls, final publication compared with a fresh server",
+  text="The harness owns the schedule at the two points that decide which publication is last: each background analysis is held at the diag.start hook and run to completion in a chosen order, or all PublishDiagnostics calls are parked in the client stub and released in a chosen order. For bursts of 2..4 changes (one or two documents, full and ranged changes, versions with pairwise different diagnostics) every permutation is enumerated in both modes; bursts of 5 are sampled by rapid. After the burst and quiescence the last publication per document must equal what a fresh server publishes for the final text.",
+  note="Orders that differ only inside one analysis are not distinguished (they cannot change which publication is last). When a server serialises publications the requested release order cannot be forced; the realised order is recorded and any realised order must still converge. Bounded waits only steer the schedule, never a verdict."),
  "C01": dict(
   technique="rapid state-machine histories of document notifications against a UTF-16 reference client buffer; differential against a fresh server for feature answers",
   text="Generated histories (2..12 didOpen / didChange with 1..4 ranged or range-less changes / didClose / re-open on 1..3 documents; ASCII, BMP, non-BMP, LF, CRLF, empty documents; positions past line and document end; insertions creating and deleting line breaks) are serialised as a conforming client would, decoded with the protocol library's JSON decoder and passed to the server; after every notification the text the server holds must equal an independent UTF-16 reference buffer. With the verif hook holding the background analysis, one feature request issued right after the notification must equal the answer of a fresh server opened on the reference text.",
